@@ -7,6 +7,8 @@
 //! and to the implementation's component list (testing).
 //! Oracle (independent of the model): transitive closure (Warshall on bit rows up to 64 vertices, BFS on
 //! bit sets above) -> partition / soundness / completeness / largest-is-max on the real output.
+//! The streams that reach the rest of the two anchor files (accessors of graph.rs, the two searches called
+//! directly, Graph::from_files, recursion depth in a forked child) are in c18_net.rs.
 use crate::ctx::Ctx;
 use crate::rng::Rng;
 use routee_compass_core::algorithm::component::scc::{
@@ -17,7 +19,7 @@ use routee_compass_core::model::network::{Edge, EdgeId, Vertex, VertexId};
 use routee_compass_core::util::compact_ordered_hash_map::CompactOrderedHashMap;
 
 /// the Lean checker is applied up to this many vertices (must equal `chkLimit` in Drv/C18.lean)
-const CHK_LIMIT: usize = 48;
+pub(crate) const CHK_LIMIT: usize = 48;
 /// the slots are compared with the loader's insertion order up to this many vertex-edge pairs
 /// (must equal `stdLimit` in Drv/C18.lean)
 const STD_LIMIT: usize = 4000;
@@ -27,17 +29,17 @@ const STD_LIMIT: usize = 4000;
 const MAX_CHAIN_QUICK: usize = 1500;
 const MAX_CHAIN_THOROUGH: usize = 4000;
 
-type Slot = Vec<(usize, usize)>; // (edge id, stored vertex id) in insertion order
+pub(crate) type Slot = Vec<(usize, usize)>; // (edge id, stored vertex id) in insertion order
 
-struct Spec {
-    family: &'static str,
-    n: usize,
-    edges: Vec<(usize, usize)>,
+pub(crate) struct Spec {
+    pub family: &'static str,
+    pub n: usize,
+    pub edges: Vec<(usize, usize)>,
     /// explicit adjacency slots (malformed stream); None = what the loader builds
-    slots: Option<(Vec<Slot>, Vec<Slot>)>,
+    pub slots: Option<(Vec<Slot>, Vec<Slot>)>,
 }
 
-fn build(spec: &Spec) -> Graph {
+pub(crate) fn build(spec: &Spec) -> Graph {
     let vertices: Vec<Vertex> = (0..spec.n).map(|i| Vertex::new(i, i as f32, -(i as f32))).collect();
     let edges: Vec<Edge> = spec
         .edges
@@ -84,12 +86,12 @@ fn build(spec: &Spec) -> Graph {
     }
 }
 
-/// the harness's own notion of a well-formed graph, evaluated on the real `Graph` value
-fn well_formed(g: &Graph) -> bool {
+/// the harness's own notion of a well-formed graph, evaluated on the real `Graph` value: every edge record
+/// joins two vertices, every slot of `adj` (`rev`) names only edges that leave (enter) that vertex, and every
+/// edge is named by the slot of its source and of its destination.  The number of slots need not be the
+/// number of vertices (the loader sizes the tables with the declared / scanned vertex count).
+pub(crate) fn well_formed(g: &Graph) -> bool {
     let n = g.vertices.len();
-    if g.adj.len() != n || g.rev.len() != n {
-        return false;
-    }
     for e in g.edges.iter() {
         if e.src_vertex_id.0 >= n || e.dst_vertex_id.0 >= n {
             return false;
@@ -97,13 +99,15 @@ fn well_formed(g: &Graph) -> bool {
     }
     let mut out_seen = vec![0usize; g.edges.len()];
     let mut in_seen = vec![0usize; g.edges.len()];
-    for v in 0..n {
+    for v in 0..g.adj.len() {
         for k in g.adj[v].keys() {
             match g.edges.get(k.0) {
                 Some(e) if e.src_vertex_id.0 == v => out_seen[k.0] += 1,
                 _ => return false,
             }
         }
+    }
+    for v in 0..g.rev.len() {
         for k in g.rev[v].keys() {
             match g.edges.get(k.0) {
                 Some(e) if e.dst_vertex_id.0 == v => in_seen[k.0] += 1,
@@ -116,7 +120,7 @@ fn well_formed(g: &Graph) -> bool {
 
 /// are the slots exactly what the loader's insertion order gives (ids of the edges leaving / entering `v`,
 /// ascending)?  `-` above STD_LIMIT
-fn std_flag(g: &Graph) -> &'static str {
+pub(crate) fn std_flag(g: &Graph) -> &'static str {
     let n = g.vertices.len();
     if n * g.edges.len() > STD_LIMIT {
         return "-";
@@ -136,7 +140,7 @@ fn std_flag(g: &Graph) -> &'static str {
     "1"
 }
 
-fn list_out(l: &[usize]) -> String {
+pub(crate) fn list_out(l: &[usize]) -> String {
     let mut s = l.len().to_string();
     for x in l {
         s.push(' ');
@@ -145,7 +149,7 @@ fn list_out(l: &[usize]) -> String {
     s
 }
 
-fn comps_out(cs: &[Vec<usize>]) -> String {
+pub(crate) fn comps_out(cs: &[Vec<usize>]) -> String {
     let mut s = cs.len().to_string();
     for c in cs {
         s.push(' ');
@@ -154,13 +158,13 @@ fn comps_out(cs: &[Vec<usize>]) -> String {
     s
 }
 
-fn slots_out<'a>(slots: impl Iterator<Item = &'a CompactOrderedHashMap<EdgeId, VertexId>>) -> String {
+pub(crate) fn slots_out<'a>(slots: impl Iterator<Item = &'a CompactOrderedHashMap<EdgeId, VertexId>>) -> String {
     let v: Vec<Vec<usize>> = slots.map(|m| m.keys().map(|k| k.0).collect()).collect();
     comps_out(&v)
 }
 
-fn case_line(g: &Graph, impl_comps: &Option<Vec<Vec<usize>>>) -> String {
-    let mut s = String::new();
+pub(crate) fn case_line(g: &Graph, impl_comps: &Option<Vec<Vec<usize>>>) -> String {
+    let mut s = String::from("scc ");
     s.push_str(&g.vertices.len().to_string());
     s.push(' ');
     s.push_str(&g.edges.len().to_string());
@@ -182,7 +186,7 @@ fn case_line(g: &Graph, impl_comps: &Option<Vec<Vec<usize>>>) -> String {
 }
 
 /// reach[u] = bit set of the vertices reachable from u (u included), independent of scc.rs
-fn closure(n: usize, edges: &[(usize, usize)]) -> Vec<Vec<u64>> {
+pub(crate) fn closure(n: usize, edges: &[(usize, usize)]) -> Vec<Vec<u64>> {
     let w = (n + 63) / 64;
     let mut reach = vec![vec![0u64; w]; n];
     if n <= 64 {
@@ -226,12 +230,12 @@ fn closure(n: usize, edges: &[(usize, usize)]) -> Vec<Vec<u64>> {
     reach
 }
 
-fn bit(r: &[u64], v: usize) -> bool {
+pub(crate) fn bit(r: &[u64], v: usize) -> bool {
     r[v / 64] >> (v % 64) & 1 == 1
 }
 
 /// the property, stated directly on the implementation's raw output
-fn oracle(ctx: &mut Ctx, idx: usize, n: usize, edges: &[(usize, usize)], comps: &[Vec<usize>], largest: &[usize]) {
+pub(crate) fn oracle(ctx: &mut Ctx, idx: usize, n: usize, edges: &[(usize, usize)], comps: &[Vec<usize>], largest: &[usize]) {
     // partition
     let mut owner: Vec<Option<usize>> = vec![None; n];
     let mut partition_ok = true;
@@ -413,7 +417,7 @@ fn run_case(ctx: &mut Ctx, idx: usize, spec: &Spec) {
 // ---------------------------------------------------------------------------------------------
 // generators
 
-fn from_mask(n: usize, mask: u64) -> Vec<(usize, usize)> {
+pub(crate) fn from_mask(n: usize, mask: u64) -> Vec<(usize, usize)> {
     let mut edges = vec![];
     for s in 0..n {
         for d in 0..n {
@@ -425,7 +429,7 @@ fn from_mask(n: usize, mask: u64) -> Vec<(usize, usize)> {
     edges
 }
 
-fn permute(rng: &mut Rng, n: usize, edges: &mut Vec<(usize, usize)>) {
+pub(crate) fn permute(rng: &mut Rng, n: usize, edges: &mut Vec<(usize, usize)>) {
     let mut p: Vec<usize> = (0..n).collect();
     rng.shuffle(&mut p);
     for e in edges.iter_mut() {
@@ -434,7 +438,7 @@ fn permute(rng: &mut Rng, n: usize, edges: &mut Vec<(usize, usize)>) {
     rng.shuffle(edges);
 }
 
-fn gen_random(rng: &mut Rng, n: usize, m: usize) -> Vec<(usize, usize)> {
+pub(crate) fn gen_random(rng: &mut Rng, n: usize, m: usize) -> Vec<(usize, usize)> {
     let mut edges = vec![];
     if n == 0 {
         return edges;
@@ -458,7 +462,7 @@ fn gen_random(rng: &mut Rng, n: usize, m: usize) -> Vec<(usize, usize)> {
 }
 
 /// planted components: blocks joined by cycles (plus chords), blocks ordered as a DAG
-fn gen_planted(rng: &mut Rng, n: usize) -> Vec<(usize, usize)> {
+pub(crate) fn gen_planted(rng: &mut Rng, n: usize) -> Vec<(usize, usize)> {
     let mut edges = vec![];
     let mut blocks: Vec<Vec<usize>> = vec![];
     let mut v = 0;
@@ -500,7 +504,7 @@ fn gen_planted(rng: &mut Rng, n: usize) -> Vec<(usize, usize)> {
 }
 
 /// a long chain, optionally with back edges that nest cycles inside cycles
-fn gen_chain(rng: &mut Rng, n: usize, nested: bool) -> Vec<(usize, usize)> {
+pub(crate) fn gen_chain(rng: &mut Rng, n: usize, nested: bool) -> Vec<(usize, usize)> {
     let mut edges = vec![];
     for i in 0..n.saturating_sub(1) {
         edges.push((i, i + 1));
@@ -529,7 +533,7 @@ fn gen_chain(rng: &mut Rng, n: usize, nested: bool) -> Vec<(usize, usize)> {
 }
 
 /// rings of rings: `k` cycles whose representatives are joined in a cycle or in a path
-fn gen_rings(rng: &mut Rng, n: usize) -> Vec<(usize, usize)> {
+pub(crate) fn gen_rings(rng: &mut Rng, n: usize) -> Vec<(usize, usize)> {
     let mut edges = vec![];
     if n == 0 {
         return edges;
@@ -664,7 +668,7 @@ fn malformed(rng: &mut Rng) -> Spec {
     }
 }
 
-fn slots_of(spec: &Spec) -> (Vec<Slot>, Vec<Slot>) {
+pub(crate) fn slots_of(spec: &Spec) -> (Vec<Slot>, Vec<Slot>) {
     let mut a = vec![vec![]; spec.n];
     let mut r = vec![vec![]; spec.n];
     for (i, (s, d)) in spec.edges.iter().enumerate() {
@@ -767,6 +771,12 @@ pub fn run(ctx: &mut Ctx) -> &'static str {
         let spec = Spec { family: "long_chain", n, edges, slots: None };
         run_case(ctx, idx, &spec);
     }
+    // 5b. recursion depth in a forked child; the accessors of graph.rs; the searches called directly;
+    //     Graph::from_files followed by the analysis (c18_net.rs)
+    crate::c18_net::run_deep(ctx);
+    crate::c18_net::run_acc(ctx);
+    crate::c18_net::run_dfs(ctx);
+    crate::c18_net::run_file(ctx);
     // 6. malformed `Graph` values (correspondence only; the property speaks about well-formed graphs)
     for _ in 0..ctx.n(1000, 5000) {
         let Some(idx) = ctx.begin() else { continue };
@@ -774,5 +784,5 @@ pub fn run(ctx: &mut Ctx) -> &'static str {
         let spec = malformed(&mut rng);
         run_case(ctx, idx, &spec);
     }
-    "corpus (scc.rs fixture, direction / finishing-order / tie witnesses), every digraph with self loops on <= 3 (quick) / <= 4 (thorough) vertices, the 3-vertex ones again with shuffled edge ids, random 4-5 vertex masks, structured random graphs up to 300 (quick) / 1000 (thorough) vertices (sparse with isolated vertices, medium, dense, planted components, rings of rings, chains with nested back edges; self loops, parallel and antiparallel edges; vertex ids and edge ids permuted), long chains up to 1500 / 4000 vertices, and malformed Graph values (correspondence only); non-trivial = well-formed graph with an edge between two distinct vertices; distinct by full case text"
+    "component stream: corpus (scc.rs fixture, direction / finishing-order / tie witnesses), every digraph with self loops on <= 3 (quick) / <= 4 (thorough) vertices, the 3-vertex ones again with shuffled edge ids, random 4-5 vertex masks, structured random graphs up to 300 (quick) / 1000 (thorough) vertices (sparse with isolated vertices, medium, dense, planted components, rings of rings, chains with nested back edges; self loops, parallel and antiparallel edges; vertex ids and edge ids permuted), long chains up to 1500 / 4000 vertices, malformed Graph values (correspondence only); deep stream: chains / cycles / nested cycles 6 000 - 24 000 vertices deep in a forked child inside a default-stack thread (modelled) and 100 000 - 1 000 000 vertices (oracle only: independent Tarjan); accessor stream: every public function of graph.rs on well-formed and malformed Graph values with in-range, boundary and far ids; search stream: depth_first_search / reverse_depth_first_search called directly from arbitrary states; file stream: Graph::from_files (plain / gzip, declared / scanned counts, absent, empty, undecodable, truncated gzip, end point beyond rows, ids not rows, declared count too small / larger) followed by the analysis; non-trivial = well-formed graph with an edge between two distinct vertices, or any accessor / search / loaded-file case; distinct by full case text"
 }
